@@ -18,7 +18,7 @@ def groups(tier, seed):
     yield dict(name="_hstack_params/_vstack_params", bound="rank 1..3, every axis in [-rank, rank), 1..3 operands, compatible and incompatible", cases=stack())
 
     def rej():
-        for kind in ("compose", "add", "apply"):
+        for kind in ("compose", "add", "apply", "add-rank-o", "add-rank-i", "hstack-rank", "vstack-rank", "compose-rank"):
             for a, b, c, d in itertools.product((2, 3), repeat=4):
                 yield dict(fn="linop.reject", args=dict(kind=kind, a=a, b=b, c=c, d=d))
     yield dict(name="rejection of operands that do not fit", bound="extents in {2,3}", cases=rej())
